@@ -3,6 +3,8 @@ from concurrent.futures import ThreadPoolExecutor
 
 VERIF = os.path.abspath(os.path.join(os.path.dirname(os.path.abspath(__file__)), '..', '..'))
 REPO = os.environ.get('VERIF_REPO', '/repo')
+# where replays/ and evidence/ are written (the seeded-change harness points this elsewhere)
+OUTDIR = os.environ.get('VERIF_OUTDIR', VERIF)
 GO = os.environ.get('VERIF_GO', 'go1.26.8')
 SCRATCH_ROOT = os.environ.get('VERIF_SCRATCH', '/var/tmp/verif-scratch')
 NCPU = int(os.environ.get('VERIF_WORKERS', str(os.cpu_count() or 4)))
@@ -424,7 +426,7 @@ def _check(ctx, prop, tier, cfg, tcfg, seed, params, known, t_start):
     exit_code = 0
     reported = []
     unconfirmed = []
-    os.makedirs(os.path.join(VERIF, 'replays'), exist_ok=True)
+    os.makedirs(os.path.join(OUTDIR, 'replays'), exist_ok=True)
     for sig in sorted(viol_map):
         occ = viol_map[sig]
         kn = known_match(known, prop, sig)
@@ -465,7 +467,7 @@ def _check(ctx, prop, tier, cfg, tcfg, seed, params, known, t_start):
         if sigm != sig:
             mintape = tape
             sigm, recm, errm = run_tape(ctx, o['binary'], prop, tier, seed, o['run'], o['params'], mintape, o['env'])
-        rp = os.path.join(VERIF, 'replays', '%s-%s-%d-%d.json' % (prop, st['name'], seed, o['run']))
+        rp = os.path.join(OUTDIR, 'replays', '%s-%s-%d-%d.json' % (prop, st['name'], seed, o['run']))
         write_tape_file(rp, prop, tier, seed, o['run'], o['params'], mintape, {
             'stage': st['name'], 'world': cfg['world'], 'signature': sig, 'message': (recm or {}).get('viol', {}).get('msg') if recm and recm.get('viol') else o['msg'],
             'original_tape': tape, 'shrink_candidates': tried, 'log_hash': (recm or {}).get('log_hash'),
@@ -546,8 +548,8 @@ def write_evidence(prop, tier, cfg, tcfg, seed, results, stage_info, reported, g
         'wall_s': round(wall, 2),
         'violations': sum(1 for r in reported if not r.get('known')),
     }
-    os.makedirs(os.path.join(VERIF, 'evidence'), exist_ok=True)
-    with open(os.path.join(VERIF, 'evidence', prop + '.json'), 'w') as f:
+    os.makedirs(os.path.join(OUTDIR, 'evidence'), exist_ok=True)
+    with open(os.path.join(OUTDIR, 'evidence', prop + '.json'), 'w') as f:
         json.dump(ev, f, indent=1, sort_keys=False)
     log('[%s %s] evidence: %d runs, %d distinct non-trivial, %.1fs' % (prop, tier, len(results), len(nontriv_keys), wall))
 
